@@ -47,16 +47,21 @@ impl ScriptT {
     /// (a counter that does not wrap within the STEPS accesses of a scenario).
     pub fn assume_honours_generation(&self) {
         kani::assume(self.gener[0] < u32::MAX - STEPS as u32);
-        let mut k = 0;
-        while k + 1 < STEPS {
-            if self.cfg[k + 1] != self.cfg[k] {
-                kani::assume(self.gener[k + 1] == self.gener[k] + 1);
-            } else {
-                kani::assume(self.gener[k + 1] == self.gener[k] || self.gener[k + 1] == self.gener[k] + 1);
-            }
-            k += 1;
+        // straight-line (no loop, no memcmp) so that harnesses can use a small unwinding bound
+        macro_rules! link {
+            ($k:expr) => {
+                if self.cfg_word($k + 1) != self.cfg_word($k) {
+                    kani::assume(self.gener[$k + 1] == self.gener[$k] + 1);
+                } else {
+                    kani::assume(self.gener[$k + 1] == self.gener[$k] || self.gener[$k + 1] == self.gener[$k] + 1);
+                }
+            };
         }
+        link!(0); link!(1); link!(2); link!(3); link!(4); link!(5);
+        link!(6); link!(7); link!(8); link!(9); link!(10);
     }
+    /// the whole CFG = 8 byte window at time k as one word
+    pub fn cfg_word(&self, k: usize) -> u64 { u64::from_le_bytes(self.cfg[k]) }
     fn step(&self, a: Acc) -> usize {
         let k = self.t.get();
         // the script is STEPS long: scenarios that need more accesses are cut off (bounded stand-in)
